@@ -87,6 +87,13 @@ def gen_shell(rng, am, harm, nprim=None, ngen=None, zero_pad=0.25, region=None):
                 col.append(num(rng, -24, -13, neg=True))
             else:
                 col.append(num(rng, -3, 1, neg=True))
+        if nprim >= 2 and rng.random() < 0.05:
+            # a contraction whose coefficients cancel exactly (c and -c, possibly a third entry that sits on a primitive shared with a
+            # free function): "is this column all zero" must look at every entry, not at their sum
+            i, j = rng.sample(range(nprim), 2)
+            c = num(rng, -2, 0, neg=False).strip()
+            col = [rng.choice(ZERO_FORMS) for _ in range(nprim)]
+            col[i], col[j] = c, '-' + c
         from decimal import Decimal
         key = tuple(Fraction(Decimal(c)) for c in col)
         if all(k == 0 for k in key):
